@@ -108,7 +108,19 @@ let clauses_textdiff h impl =
     in
     let dl = match Hashtbl.find_opt h "dl" with Some s -> parse_opt s | None -> None in
     let nlo = get_def h "nlo" "-" in
+    (* identical texts: only Equal ops (none for two empty texts); ratio in [0,1] and 1.0 exactly for equal texts *)
+    let only_equal = List.for_all (fun op -> match op with Equal _ -> true | _ -> false) ops in
+    let ident_ok = (o <> n) || (only_equal && (o <> [] || ops = [])) in
+    let ratio_ok =
+      match Hashtbl.find_opt ih "ratio" with
+      | None -> true
+      | Some r ->
+          let f = Int32.float_of_bits (Int32.of_string r) in
+          f >= 0.0 && f <= 1.0 && ((f = 1.0) = (o = n))
+    in
     [ ("no_panic", true);
+      ("identical_only_equal", ident_ok);
+      ("ratio_range", ratio_ok);
       ("normal", normal);
       ("ops_exact", exact);
       ("tokens_lossless", lossless);
